@@ -211,7 +211,7 @@ def main(argv=None):
             print("KNOWN-FINDING: property=%s %s (observed %d times this run)" % (prop, k["description"], known_hits[k["mechanism"]]))
     # ---- evidence
     minimum = tier.get("min_cases", 1)
-    reached = spec.get("deciding_counters", [])
+    reached = [c for c in spec.get("deciding_counters", []) if tot["monitors"].get("optional:" + c) != "absent"]
     missing = [c for c in reached if tot["counters"].get(c, 0) == 0]
     inconclusive = list(tot["inconclusive"])
     if tot["cases"] < minimum:
